@@ -270,3 +270,8 @@ Definition kmapT (th : thread) : thread := mkThread (t_pc th) (t_calls th) (map 
 Definition kmapSt (st : state) : state := mkState (kmapS (s_sh st)) (s_lock st) (s_waitq st) (map kmapT (s_thr st)).
 
 End Rename.
+
+(* ---- which descriptor a handed-out object was registered for ---------------------------------- *)
+(* the cell c of heap h was registered for descriptor d (RefSchema.source) *)
+Definition src_is (h : list cell) (c : cellid) (d : name) : Prop :=
+  exists cl, nth_error h c = Some cl /\ c_name cl = d.
